@@ -53,6 +53,8 @@ type c19 struct {
 	maxSteps, steps   int
 	bigSet            bool
 	offerBuf          []coinset.Coin
+	lastSel           coinset.Coins
+	lastSelCoins      []coinset.Coin
 	hugeSet           bool
 	churn             bool
 	mutated, selected bool
@@ -511,6 +513,21 @@ func (s *c19) checkSelect(which int, target int64, maxIn int, minChange, minVA i
 		sel = coinset.MinPriorityCoinSelector{MaxInputs: maxIn, MinChangeAmount: bchutil.Amount(minChange), MinAvgValueAgePerInput: minVA}
 	}
 	res, err := sel.CoinSelect(bchutil.Amount(target), offered)
+	// the selection returned by the PREVIOUS call is still the caller's
+	if s.lastSel != nil {
+		now := s.lastSel.Coins()
+		same := len(now) == len(s.lastSelCoins)
+		for i := 0; same && i < len(now); i++ {
+			same = now[i] == s.lastSelCoins[i]
+		}
+		if !same {
+			return s.report(kit.VK("selector:earlier-selection-changed", "selector:earlier-selection-changed", "a selection returned by an earlier CoinSelect call (%s) changed when CoinSelect was called again: it now holds %s", describeCoins(s.lastSelCoins), describeCoins(now)))
+		}
+	}
+	s.lastSel, s.lastSelCoins = nil, nil
+	if err == nil && res != nil {
+		s.lastSel, s.lastSelCoins = res, append([]coinset.Coin(nil), res.Coins()...)
+	}
 	name := selNames[which]
 	params := fmt.Sprintf("%s{MaxInputs:%d MinChange:%d MinAvgValueAge:%d}.CoinSelect(target=%d, %s)", name, maxIn, minChange, minVA, target, describeCoins(before))
 	if err != nil {
